@@ -365,7 +365,7 @@ pub fn in_flight<T>(q: &str, doc: &Value, f: impl FnOnce() -> T) -> T {
     r
 }
 
-pub const HANG_LIMIT_S: u64 = 20;
+pub const HANG_LIMIT_S: u64 = 40;
 
 fn start_watchdog() {
     std::thread::spawn(|| loop {
